@@ -265,6 +265,15 @@ def emit_fn(asm, fnrec, sig, body, contract, ret_name):
                 raise ExtractError('%s: loop %d not found (have %d)' % (fnrec.name, n, len(loops)))
             kwpos, kw, ob = loops[n]
             L = contract['loops'][n]
+            am = re.search(r'/\*@auto invariant (.*?); decreases (.*?)\*/', body[kwpos:ob])
+            if am:
+                # clauses the counter-loop rewrite brought along are merged with the sidecar's
+                L = dict(L)
+                L['invariant'] = [am.group(1)] + list(L['invariant'])
+                if not L['decreases']:
+                    L['decreases'] = am.group(2)
+                body = body[:kwpos + am.start()] + body[kwpos + am.end():]
+                ob -= am.end() - am.start()
             ins = ''
             if L['invariant']:
                 ins += '\n        invariant\n' + ''.join('            %s,\n' % x for x in L['invariant'])
@@ -291,6 +300,8 @@ def emit_fn(asm, fnrec, sig, body, contract, ret_name):
                 if not mm:
                     raise ExtractError('for without in')
                 body = body[:kwpos + mm.end()] + L['iter'] + ': ' + body[kwpos + mm.end():]
+    # counter loops without a sidecar entry keep the clauses their rewrite brought along
+    body = re.sub(r'/\*@auto invariant (.*?); decreases (.*?)\*/', lambda m_: '\n        invariant %s,\n        decreases %s,\n   ' % (m_.group(1), m_.group(2)), body)
     if contract['okassert']:
         txt = '  proof {\n' + '\n'.join(contract['okassert']) + '\n  }'
         mbody = rsx.mask(body)
@@ -336,11 +347,17 @@ def emit_fn(asm, fnrec, sig, body, contract, ret_name):
 def expand_includes(path, seen=None):
     """.vu includes are expanded textually first (they may contain directives)"""
     out = []
+    if seen is None:
+        seen = set()
     for line in open(path, encoding='utf-8').read().split('\n'):
         if line.startswith('//@include ') and line.strip().endswith('.vu'):
             inc = os.path.join(VERIF, 'units', line.split()[1])
+            if inc in seen:
+                out.append('// ---- include %s (already included)' % line.split()[1])
+                continue
+            seen.add(inc)
             out.append('// ---- include %s' % line.split()[1])
-            out.extend(expand_includes(inc))
+            out.extend(expand_includes(inc, seen))
             out.append('// ---- end include %s' % line.split()[1])
         else:
             out.append(line)
